@@ -580,11 +580,11 @@ example : fmtIsoWeek 1483228800000000000 0 = "2016-W52" := by decide
 example : resolveTs utcCfg (tokenAt utcCfg 1704103200500000000 (some (some (true, 23, 59)))) =
     .ok ⟨1704103200500000000, -86340⟩ := by decide
 
-/-- regression witness of finding F18 (jiff 0.2.5, upstream): half a second before New York's 1967-04-30 transition
+/-- regression witness of finding F22 (jiff 0.2.5, upstream): half a second before New York's 1967-04-30 transition
     the modelled lookup (`Timestamp::as_second()` truncates toward zero) already yields the offset after it, whereas
     the plain table lookup yields the offset before it.  If the dependency is fixed, the tie breaks and this witness
     (with `lookupNs`) is to be removed. -/
-theorem witness_F18 :
+theorem witness_F22 :
     offsetAt ⟨-100000000000000000, 0, -18000, [(-84387600000000000, -14400)]⟩ (-84387600500000000) = -14400 ∧
     offsetAtFrom (-18000) [(-84387600000000000, -14400)] (-84387600500000000) = -18000 := by decide
 
